@@ -418,7 +418,12 @@ type Evaluator struct {
 	// package-level variables that are assigned after initialisation (not foldable)
 	writtenGlobals map[types.Object]bool
 	globalInit     map[types.Object]ast.Expr
+	others         map[string]*Evaluator // evaluators of other module packages, by path
 }
+
+// ModulePackages: the loaded packages of the module by import path, so that a call into a helper package
+// (internal/…) can be evaluated in that package. Set by the loader of the band tables.
+var ModulePackages map[string]*packages.Package
 
 func NewEvaluator(pk *packages.Package) *Evaluator {
 	ev := &Evaluator{Pkg: pk, Info: pk.TypesInfo, writtenGlobals: map[types.Object]bool{}, globalInit: map[types.Object]ast.Expr{}}
@@ -1002,6 +1007,10 @@ func (ev *Evaluator) evalCall(x *ast.CallExpr, env *Env) Value {
 	}
 	// pure functions of package strings on determined arguments (version strings are normalised before a lookup)
 	if v, ok := ev.evalStringsCall(x, env); ok {
+		return v
+	}
+	// call of a plain function of another package of the module (a helper package): evaluated there
+	if v, ok := ev.evalModuleCall(x, env); ok {
 		return v
 	}
 	// call of a function or method declared in the analysed package
@@ -1848,4 +1857,74 @@ func (ev *Evaluator) evalStringsCall(x *ast.CallExpr, env *Env) (Value, bool) {
 		return Int{int64(strings.Compare(ss[0], ss[1]))}, true
 	}
 	return nil, false
+}
+
+// evalModuleCall: pkg.F(args…) where pkg is another package of the module and F a plain function declared there.
+func (ev *Evaluator) evalModuleCall(x *ast.CallExpr, env *Env) (Value, bool) {
+	sel, ok := x.Fun.(*ast.SelectorExpr)
+	if !ok {
+		return nil, false
+	}
+	fn, ok := ev.Info.Uses[sel.Sel].(*types.Func)
+	if !ok || fn.Pkg() == nil || fn.Pkg() == ev.Pkg.Types || fn.Type().(*types.Signature).Recv() != nil {
+		return nil, false
+	}
+	pk := ModulePackages[fn.Pkg().Path()]
+	if pk == nil {
+		return nil, false
+	}
+	var fd *ast.FuncDecl
+	for _, f := range pk.Syntax {
+		for _, d := range f.Decls {
+			if d2, ok := d.(*ast.FuncDecl); ok && d2.Recv == nil && d2.Name.Name == fn.Name() && d2.Body != nil {
+				fd = d2
+			}
+		}
+	}
+	if fd == nil {
+		return nil, false
+	}
+	if ev.others == nil {
+		ev.others = map[string]*Evaluator{}
+	}
+	oe := ev.others[pk.PkgPath]
+	if oe == nil {
+		oe = NewEvaluator(pk)
+		ev.others[pk.PkgPath] = oe
+	}
+	bind := map[string]Value{}
+	i := 0
+	for _, f := range fd.Type.Params.List {
+		for _, n := range f.Names {
+			if i < len(x.Args) {
+				bind[n.Name] = ev.copyIfValueType(ev.Eval(x.Args[i], env), ev.Info.TypeOf(x.Args[i]))
+			}
+			i++
+		}
+		if len(f.Names) == 0 {
+			i++
+		}
+	}
+	if fd.Type.Params.NumFields() != len(x.Args) {
+		return nil, false // variadic or tuple argument: not evaluated across packages
+	}
+	ev.depth++
+	oe.depth = ev.depth
+	oe.Steps = ev.Steps
+	if ev.depth > 16 {
+		ev.depth--
+		return ev.unk(x, "call depth"), true
+	}
+	res, okc := oe.Call(fd, bind)
+	ev.depth--
+	ev.Steps = oe.Steps
+	ev.Diag = append(ev.Diag, oe.Diag...)
+	oe.Diag = nil
+	if !okc {
+		return ev.unk(x, "callee left the evaluable subset"), true
+	}
+	if len(res) == 1 {
+		return res[0], true
+	}
+	return Tuple(res), true
 }
